@@ -42,9 +42,9 @@ theorem legacy_reason_is_free : Ignore.ofValue "trashed" = none := by decide
 def Entry.reloaded (e : Entry) (sid : Nat) : Entry :=
   { s0 := e.s0.normed, s1 := e.s1.normed, ignored := e.ignored, priority := 0, storageId := some sid }
 
-/-- msgpack-representable: `dumps` accepts the dict (all integers in the 64 bit range) and `loads`
-    accepts the bytes (every dict key inside a hash/id value is `str` or `bytes`) -/
-def Entry.Rep (e : Entry) : Prop := dumpsOk e.serialize = true ∧ loadsOk e.serialize = true
+/-- msgpack-representable: `dumps` accepts the dict (all integers in the 64 bit range); `loads`
+    (with `strict_map_key=False`) then accepts whatever `dumps` wrote -/
+def Entry.Rep (e : Entry) : Prop := dumpsOk e.serialize = true
 
 /-- `_set_mtime` only ever stores None or a number (state.py:100) -/
 def Entry.MtimeOk (e : Entry) : Prop := e.s0.mtime.isNumOrNone = true ∧ e.s1.mtime.isNumOrNone = true
@@ -57,10 +57,10 @@ def Side.vals (s : Side) : List Val :=
 
 /-- `Rep`, field by field -/
 theorem Entry.rep_iff (e : Entry) :
-    e.Rep ↔ (∀ v ∈ e.s0.vals ++ e.s1.vals, dumpsOk v = true ∧ loadsOk v = true) ∧ intOk e.priority = true := by
+    e.Rep ↔ (∀ v ∈ e.s0.vals ++ e.s1.vals, dumpsOk v = true) ∧ intOk e.priority = true := by
   obtain ⟨⟨o0, a0, b0, c0, d0, e0, f0, g0, x0, h0, i0, j0, v0, w0⟩, ⟨o1, a1, b1, c1, d1, e1, f1, g1, x1, h1, i1, j1, v1, w1⟩, ig, pr, sid⟩ := e
   cases v0 <;> cases v1 <;>
-  simp only [Entry.Rep, Entry.serialize, Side.serialize, dumpsOk, dumpsOkKvs, loadsOk, loadsOkKvs, Key.dumpsOk, Key.loadsOk,
+  simp only [Entry.Rep, Entry.serialize, Side.serialize, dumpsOk, dumpsOkKvs, Key.dumpsOk,
     Side.vals, List.cons_append, List.nil_append, List.mem_cons, List.not_mem_nil, or_false, forall_eq_or_imp, forall_eq,
     Bool.and_eq_true, true_and, and_true] <;>
   (constructor <;> intro h <;> simp_all)
@@ -73,9 +73,9 @@ theorem Entry.rep_iff (e : Entry) :
 theorem roundtrip (e : Entry) (sid : Nat) (hrep : e.Rep) (hm : e.MtimeOk) :
     ∃ row, e.row = .ok row ∧ Entry.deserialize sid row = .ok (e.reloaded sid) := by
   refine ⟨norm e.serialize, ?_, ?_⟩
-  · simp [Entry.row, dumps, hrep.1]
-  · have hl : loadsOk (norm e.serialize) = true := by rw [loadsOk_norm]; exact hrep.2
-    simp only [Entry.deserialize, loads, hl, if_true, norm_idem]
+  · have hd : dumpsOk e.serialize = true := hrep
+    simp [Entry.row, dumps, hd]
+  · simp only [Entry.deserialize, loads, norm_idem]
     obtain ⟨s0, s1, ig, pr, st⟩ := e
     have h0 := Side.deserialize_serialize s0 0 hm.1
     have h1 := Side.deserialize_serialize s1 1 hm.2
@@ -104,16 +104,16 @@ theorem list_comes_back_as_tuple (xs : List Val) : norm (.arr true xs) = .arr fa
 /-- a second round trip changes nothing more -/
 theorem roundtrip_stable (v : Val) : norm (norm v) = norm v := norm_idem v
 
-/-- **Excluded point of `Rep`** (kernel-checked): a dict-typed hash with a non-string key is written
-    (dumps accepts it) but the row does not load (`strict_map_key`): `deserialize` raises ValueError,
-    and the loader (state.py:740-742) then deletes the row. -/
+/-- a dict-typed hash with a non-string key (once dropped on load: fixed finding
+    `dict-hash-nonstring-key-row-dropped-on-load`) is representable and round-trips like any other -/
 def intKeyEntry : Entry :=
   { Entry.fresh .file with s0 := { Side.fresh 0 .file with oid := .str "a", hash := .map [(.int 1, .int 2)] } }
 
-theorem dict_hash_int_key_row_does_not_load :
-    intKeyEntry.row = .ok (norm intKeyEntry.serialize) ∧
-    Entry.deserialize 1 (norm intKeyEntry.serialize) = .error .value := by
-  constructor <;> rfl
+theorem dict_hash_nonstring_key_roundtrips :
+    intKeyEntry.Rep ∧ intKeyEntry.row = .ok (norm intKeyEntry.serialize) ∧
+    Entry.deserialize 1 (norm intKeyEntry.serialize) = .ok (intKeyEntry.reloaded 1) ∧
+    (intKeyEntry.reloaded 1).s0.hash = .map [(.int 1, .int 2)] := by
+  refine ⟨by decide, rfl, rfl, rfl⟩
 
 /-! ## rows written by older releases -/
 
@@ -177,12 +177,10 @@ theorem LegacySide.deserialize_toVal (s : LegacySide) (i : Int) :
     UNKNOWN, the missing `size`, `mtime`, `_saved_exists` and `priority` default, `'trashed'` and
     the `discarded` / `conflicted` flags map to the current reasons; every other field as in
     `roundtrip`. -/
-theorem legacy_rows_load (a b : LegacySide) (ig : LegacyIgnore) (sid : Nat)
-    (hl : loadsOk (legacyRow a b ig) = true) :
+theorem legacy_rows_load (a b : LegacySide) (ig : LegacyIgnore) (sid : Nat) :
     Entry.deserialize sid (norm (legacyRow a b ig)) =
       .ok { s0 := a.loaded, s1 := b.loaded, ignored := ig.loaded, priority := 0, storageId := some sid } := by
-  have hl' : loadsOk (norm (legacyRow a b ig)) = true := by rw [loadsOk_norm]; exact hl
-  simp only [Entry.deserialize, loads, hl', if_true, norm_idem]
+  simp only [Entry.deserialize, loads, norm_idem]
   have h0 := LegacySide.deserialize_toVal a 0
   have h1 := LegacySide.deserialize_toVal b 1
   cases ig with
@@ -280,66 +278,58 @@ theorem mem_rowsOf (t : Sqlite.Table Val) (h : Sqlite.Inv t) (k : Nat) (row : Va
 
 /-- **What "storage is exact" means.**  `silent` (ghost) is the set of entries that were changed on a
     path that reaches no dirty mark — the CORRUPT early returns of `SideState.__setattr__`, the ousting
-    write of `_change_path`, a hook aborted by an exception — and not dirtied since; `gone` the
-    entries whose row `_storage_update` deleted. -/
+    write of `_change_path`, a hook aborted by an exception — and not dirtied since.  With
+    `silent = []` this is the property's statement: the rows of the tag are exactly the
+    serialisations of the live non-trash entries, one row each. -/
 structure Exact (st : St) : Prop where
   /-- no missing row: every live non-trash entry has a row and it is its current serialisation -/
-  live_have_rows : ∀ i e, st.ents[i]? = some e → i ∉ st.silent → e.isTrash = false →
-    ∃ k row, e.storageId = some k ∧ i ∉ st.gone ∧ e.row = .ok row ∧ (k, row) ∈ rowsOf st.store
+  live_have_rows : ∀ (i : Nat) (e : Entry), st.ents[i]? = some e → i ∉ st.silent → e.isTrash = false →
+    ∃ k row, e.storageId = some k ∧ e.row = .ok row ∧ (k, row) ∈ rowsOf st.store
   /-- no stale row: every row of the tag belongs to a live entry, which (unless silently changed) is
       not trash and serialises to exactly that row -/
-  rows_have_owner : ∀ k row, (k, row) ∈ rowsOf st.store →
-    ∃ i e, st.ents[i]? = some e ∧ e.storageId = some k ∧ i ∉ st.gone ∧
+  rows_have_owner : ∀ (k : Nat) (row : Val), (k, row) ∈ rowsOf st.store →
+    ∃ (i : Nat) (e : Entry), st.ents[i]? = some e ∧ e.storageId = some k ∧
       (i ∉ st.silent → e.isTrash = false ∧ e.row = .ok row)
   /-- one owner per row -/
-  owner_unique : ∀ i j ei ej k, st.ents[i]? = some ei → st.ents[j]? = some ej → ei.storageId = some k →
-    ej.storageId = some k → i ∉ st.gone → j ∉ st.gone → i = j
-  /-- trash entries own no row -/
-  trash_have_none : ∀ i e, st.ents[i]? = some e → i ∉ st.silent → e.isTrash = true → i ∈ st.gone ∨ e.storageId = none
+  owner_unique : ∀ (i j : Nat) (ei ej : Entry) (k : Nat), st.ents[i]? = some ei → st.ents[j]? = some ej →
+    ei.storageId = some k → ej.storageId = some k → i = j
+  /-- trash entries keep no storage id (so no later write on them can reach a row) -/
+  trash_have_none : ∀ (i : Nat) (e : Entry), st.ents[i]? = some e → i ∉ st.silent → e.isTrash = true → e.storageId = none
 
-theorem exact_of_inv (st : St) (h : Inv st) (hd : st.dirty = []) (hg : st.goneTouched = false) : Exact st := by
-  obtain ⟨t, hs, hrest⟩ := h
-  obtain ⟨hc, hst⟩ := hrest hg
+theorem exact_of_inv (st : St) (h : Inv st) (hd : st.dirty = []) : Exact st := by
+  obtain ⟨t, hs, hc, hst⟩ := h
   have hnd : ∀ i, i ∉ st.dirty ∨ i ∈ ([] : List Nat) := fun i => Or.inl (by rw [hd]; simp)
   refine ⟨?_, ?_, ?_, ?_⟩
   · intro i e he hsil ht
     have := hst i e he (hnd i) hsil
     unfold Stored at this
-    by_cases hgi : i ∈ st.gone
-    · rw [if_pos hgi] at this; rw [this] at ht; cases ht
-    · rw [if_neg hgi] at this
-      cases hk : e.storageId with
-      | none => simp only [hk] at this; rw [this] at ht; cases ht
-      | some k =>
-        simp only [hk] at this
-        obtain ⟨_, row, hr, ha⟩ := this
-        exact ⟨k, row, rfl, hgi, hr, by rw [hs]; exact (mem_rowsOf t hc.tinv k row).2 ha⟩
+    cases hk : e.storageId with
+    | none => simp only [hk] at this; rw [this] at ht; cases ht
+    | some k =>
+      simp only [hk] at this
+      obtain ⟨_, row, hr, ha⟩ := this
+      exact ⟨k, row, rfl, hr, by rw [hs]; exact (mem_rowsOf t hc.tinv k row).2 ha⟩
   · intro k row hm
     rw [hs] at hm
     have ha := (mem_rowsOf t hc.tinv k row).1 hm
-    obtain ⟨i, hi, hgi⟩ := hc.nostale k (by rw [ha]; simp)
+    obtain ⟨i, hi⟩ := hc.nostale k (by rw [ha]; simp)
     simp only [sidOf, Option.map_eq_some_iff] at hi
     obtain ⟨e, he, hk⟩ := hi
-    refine ⟨i, e, he, hk, hgi, fun hsil => ?_⟩
+    refine ⟨i, e, he, hk, fun hsil => ?_⟩
     have := hst i e he (hnd i) hsil
     unfold Stored at this
-    rw [if_neg hgi] at this
     simp only [hk] at this
     obtain ⟨ht, row', hr, ha'⟩ := this
     rw [ha] at ha'; injection ha' with ha'; subst ha'
     exact ⟨ht, hr⟩
-  · intro i j ei ej k hi hj hki hkj gi gj
-    exact hc.uniq i j k (by rw [sidOf_of_ent hi, hki]) (by rw [sidOf_of_ent hj, hkj]) gi gj
+  · intro i j ei ej k hi hj hki hkj
+    exact hc.uniq i j k (by rw [sidOf_of_ent hi, hki]) (by rw [sidOf_of_ent hj, hkj])
   · intro i e he hsil ht
-    by_cases hgi : i ∈ st.gone
-    · exact Or.inl hgi
-    · right
-      have := hst i e he (hnd i) hsil
-      unfold Stored at this
-      rw [if_neg hgi] at this
-      cases hk : e.storageId with
-      | none => rfl
-      | some k => simp only [hk] at this; rw [this.1] at ht; cases ht
+    have := hst i e he (hnd i) hsil
+    unfold Stored at this
+    cases hk : e.storageId with
+    | none => rfl
+    | some k => simp only [hk] at this; rw [this.1] at ht; cases ht
 
 /-- **The invariant that is true of the code**, for every sequence of entry creations, hooked writes
     and commits from an empty database (no bound on the length): see `Inv` (Proofs/PersistInv.lean). -/
@@ -347,93 +337,78 @@ theorem persistence_invariant (ops : List Op) : Inv (run (St.init (.sqlite [])) 
   Inv_run ops _ Inv_init
 
 /-- **After `storage_commit`, storage is exact** — for every sequence of entry creations, hooked
-    attribute writes and commits, whenever a commit returns normally, provided no `_storage_update` was
-    ever run on an entry whose row had been deleted earlier (`goneTouched = false`; the excluded
-    case is the defect witnessed below).  With `silent = []` this reads: the rows of the tag are
-    exactly the serialisations of the live non-trash entries, one row each, no stale row. -/
-theorem commit_makes_storage_exact_partial (ops : List Op) :
+    attribute writes and commits, whenever a commit returns normally.  (Before the repair of
+    `stale-storage-id-after-row-delete` this needed the hypothesis that no `_storage_update` had run
+    on an entry whose row had been deleted.) -/
+theorem commit_makes_storage_exact (ops : List Op) :
     let st := run (St.init (.sqlite [])) ops
-    (step st .commit).1 = .ok () → (step st .commit).2.goneTouched = false → Exact (step st .commit).2 := by
-  intro st hok hg
-  have hinv : Inv st := persistence_invariant ops
-  have := Inv_commit st hinv
-  exact exact_of_inv _ this.1 (this.2 hok) hg
+    (step st .commit).1 = .ok () → Exact (step st .commit).2 := by
+  intro st hok
+  have := Inv_commit st (persistence_invariant ops)
+  exact exact_of_inv _ this.1 (this.2.1 hok)
+
+/-- … and a commit never raises the `ValueError` of `Storage.update` (no row is ever missing): the
+    only exception it can raise is the `OverflowError` of `msgpack.dumps` on an integer outside 64 bits -/
+theorem commit_raises_only_overflow (ops : List Op) :
+    let st := run (St.init (.sqlite [])) ops
+    (step st .commit).1 = .ok () ∨ (step st .commit).1 = .error (.py .overflow) :=
+  (Inv_commit _ (persistence_invariant ops)).2.2
 
 /-- the same at any moment at which nothing is waiting in the dirty set -/
 theorem storage_exact_when_clean (ops : List Op) :
     let st := run (St.init (.sqlite [])) ops
-    st.dirty = [] → st.goneTouched = false → Exact st :=
-  fun hd hg => exact_of_inv _ (persistence_invariant ops) hd hg
+    st.dirty = [] → Exact st :=
+  fun hd => exact_of_inv _ (persistence_invariant ops) hd
 
-/-- hooked writes never touch storage, storage ids or the bookkeeping of deleted rows, and every
-    entry they change is covered by the dirty set or the ghost set (the dirty-marking discipline) -/
+/-- hooked writes never touch storage or storage ids, and every entry they change is covered by the
+    dirty set or the ghost set (the dirty-marking discipline) -/
 theorem hooked_write_frame (st : St) (c : Call) : LeX none st (step st (.write c)).2 :=
   (Pres_hook (fuelFor st) c).run st
 
-/-! ### what the full statement excludes: kernel-checked witnesses
-
-Full statement (false of the code as it is):
-  `commit_makes_storage_exact : ∀ ops, let st := run init ops; (step st .commit).1 = .ok () →
-      Exact (step st .commit).2 ∧ (step st .commit).2.silent = []`
-and totality of commit on representable entries.  Three separate reasons: -/
-
 def wOid (i : Nat) (sd : Sd) (v : Val) : Op := .write (.side i sd (.plain .oid (.val v)))
 
-/-- (1) **stale storage id**: `_storage_update` deletes the row of a trash entry but leaves
-    `ent.storage_id` set.  SQLite hands the freed rowid to the next created entry; any later hooked
-    write on the trash entry makes the next commit delete that *other* entry's row. -/
+/-! ### the repaired finding `stale-storage-id-after-row-delete`, kernel-checked on its exact replay -/
+
 def staleIdOps : List Op :=
   [ .new .file, wOid 0 false (.str "a"), .commit,
     .new .file, wOid 1 false (.str "b"), .commit,
-    wOid 1 false .nil, .commit,                          -- entry 1 is trash: row 2 deleted, storage_id stays 2
+    wOid 1 false .nil, .commit,                          -- entry 1 is trash: row 2 deleted, storage id forgotten
     .new .file, wOid 2 false (.str "c"), .commit,        -- entry 2 gets rowid 2
-    .write (.side 1 false (.plain .hash (.val (.str "x")))), .commit ]   -- touches the trash entry: deletes row 2
+    .write (.side 1 false (.plain .hash (.val (.str "x")))), .commit ]   -- touching the trash entry harms nobody
 
-theorem stale_storage_id_deletes_live_row :
+theorem storage_id_forgotten_after_row_delete :
     let st := run (St.init (.sqlite [])) staleIdOps
     st.dirty = [] ∧ st.silent = [] ∧ (st.ents.map Entry.isTrash) = [false, true, false] ∧
-    (st.ents.map Entry.storageId) = [some 1, some 2, some 2] ∧
-    (rowsOf st.store).map (·.1) = [1] ∧ st.goneTouched = true := by decide
+    (st.ents.map Entry.storageId) = [some 1, none, some 2] ∧ (rowsOf st.store).map (·.1) = [1, 2] := by decide
 
-/-- …and once that has happened the next commit of the robbed entry raises ValueError, for ever
-    (the dirty set is not cleared when the loop raises) -/
-theorem stale_storage_id_then_commit_raises :
-    let st := run (St.init (.sqlite [])) (staleIdOps ++ [.write (.side 2 false (.plain .path (.val (.str "/c"))))])
-    (match (step st .commit).1 with | .error (.py .value) => true | _ => false) = true ∧
-    (step (step st .commit).2 .commit).2.dirty = [2] := by decide
-
-/-- (1b) the same stale id when the trash entry comes back to life: ValueError, nothing is stored -/
 def resurrectOps : List Op :=
-  [ .new .file, wOid 0 false (.str "a"), .commit, wOid 0 false .nil, .commit, wOid 0 false (.str "a") ]
+  [ .new .file, wOid 0 false (.str "a"), .commit, wOid 0 false .nil, .commit, wOid 0 false (.str "a"), .commit ]
 
-theorem resurrected_entry_commit_raises :
+theorem resurrected_entry_gets_a_new_row :
     let st := run (St.init (.sqlite [])) resurrectOps
-    (match (step st .commit).1 with | .error (.py .value) => true | _ => false) = true ∧
-    rowsOf (step st .commit).2.store = [] ∧ (st.ents.map Entry.isTrash) = [false] := by decide
+    st.dirty = [] ∧ (st.ents.map Entry.isTrash) = [false] ∧ (st.ents.map Entry.storageId) = [some 1] ∧
+    (rowsOf st.store).map (·.1) = [1] := by decide
 
-/-- (2) **the CORRUPT marker is set without a dirty mark** (state.py:115-119): alone, it is not
-    persisted by the next commit.  (In the engine `handle_corrupt` continues with `mark_changed` on
-    the same entry.) -/
+/-! ### what the statement with `silent = []` excludes: a stated fact, kernel-checked
+
+**the CORRUPT marker is set without a dirty mark** (`SideState.__setattr__`, the two early returns):
+alone, it is not persisted by the next commit.  (In the engine `handle_corrupt` continues with
+`mark_changed` on the same entry, and `update_entry` with `mark_changed`.) -/
 def corruptOps : List Op :=
   [ .new .file, wOid 0 false (.str "a"), .write (.side 0 false (.exists_ (.enum .exists_))), .commit,
     .write (.side 0 false (.exists_ (.enum .corrupt))), .commit ]
 
 theorem corrupt_mark_alone_not_persisted :
     let st := run (St.init (.sqlite [])) corruptOps
-    st.dirty = [] ∧ st.silent = [0] ∧ st.goneTouched = false ∧
+    st.dirty = [] ∧ st.silent = [0] ∧
     (st.ents.map fun e => (e.s0.exists_, e.s0.savedExists)) = [(.corrupt, some .exists_)] ∧
     ((rowsOf st.store).map fun r => (Entry.deserialize r.1 r.2).toOption.map fun e => (e.s0.exists_, e.s0.savedExists))
       = [some (.exists_, none)] := by decide
 
-/-! ### reload
+/-! ### reload -/
 
-Full statement (false of the code as it is):
-  `reload_equiv : ∀ st, Exact st → ∀ sd k stale, lookupOid (reload st.store) sd k ≃ lookupOid st sd k ∧
-      lookupPath (reload st.store) sd k stale ≃ lookupPath st sd k stale ∧ pending (reload st.store) ≃ pending st`
-Two separate reasons: -/
-
-/-- **the loader, specified** (state.py:725-743): the rebuilt state holds one entry per row that
-    deserialises, in row order (a row that does not is deleted, nothing else is) -/
+/-- **the loader, specified**: the rebuilt state holds one entry per row that deserialises, in row
+    order (a row that does not is deleted, nothing else is) -/
 theorem reload_ents (b : Backend) : (reload b).ents = loadedEntries (rowsOf b) := by
   have := (loadRows_spec (rowsOf b) (St.init b) (Loaded_init b)).2
   simpa [reload, St.init] using this
@@ -451,10 +426,17 @@ theorem reload_lookup_complete (b : Backend) (sd : Sd) (s : String) (i : Nat) (e
     ∃ j, lookupOid (reload b) sd (.str s) = some j ∧ i ≤ j :=
   (loadRows_spec (rowsOf b) (St.init b) (Loaded_init b)).1.complete sd s i e he ho
 
-/-- the rebuilt pending set: exactly the rebuilt entries with a truthy change stamp on some side
-    (whether or not that side has an id — the live rule, state.py:788-793, asks for one) -/
+/-- nothing is indexed under the key None (repaired finding `loader-indexes-absent-side-under-none`) -/
+theorem reload_none_key_absent (b : Backend) (sd : Sd) (stale : Bool) :
+    lookupOid (reload b) sd .nil = none ∧ lookupPath (reload b) sd .nil stale = [] := by
+  have h := (loadRows_spec (rowsOf b) (St.init b) (Loaded_init b)).1.noneAbsent sd
+  have h2 : dget ((reload b).ix sd).paths Val.nil = none := h.2
+  exact ⟨h.1, by simp [lookupPath, h2]⟩
+
+/-- the rebuilt pending set: exactly the rebuilt entries with a truthy change stamp on a side that
+    has an id (repaired finding `reload-pending-set-differs`) -/
 theorem reload_pending_spec (b : Backend) (i : Nat) :
-    i ∈ (reload b).changeset ↔ ∃ e, (reload b).ents[i]? = some e ∧ e.stamped = true :=
+    i ∈ (reload b).changeset ↔ ∃ e, (reload b).ents[i]? = some e ∧ e.pendingOnLoad = true :=
   (loadRows_spec (rowsOf b) (St.init b) (Loaded_init b)).1.pending i
 
 theorem mem_loadedEntries (rows : List (Nat × Val)) (e : Entry) :
@@ -485,72 +467,161 @@ theorem mem_loadedEntries (rows : List (Nat × Val)) (e : Entry) :
 theorem norm_eq_str (v : Val) (s : String) (h : norm v = .str s) : v = .str s := by
   cases v <;> simp_all [norm]
 
-/-- **Reload equivalence, the part that holds** (`reload_equiv_partial`): take a live state whose
-    storage is exact (the conclusion of `commit_makes_storage_exact_partial`, nothing silently changed)
-    and whose live entries are msgpack-representable.  Then, for every side and every *non-None*
-    (string) id:
+theorem reloaded_side_oid (e : Entry) (k : Nat) (sd : Sd) : ((e.reloaded k).side sd).oid = norm (e.side sd).oid := by
+  cases sd <;> rfl
+
+theorem reloaded_pending (e : Entry) (k : Nat) : (e.reloaded k).pendingOnLoad = e.pendingOnLoad := by
+  simp [Entry.pendingOnLoad, Entry.reloaded, Side.normed, norm_isNone, norm_truthy]
+
+theorem not_trash_of_oid (e : Entry) (sd : Sd) (s : String) (h : (e.side sd).oid = .str s) : e.isTrash = false := by
+  cases sd <;> simp_all [Entry.side, Entry.isTrash, Val.isNone]
+
+/-- every row of an exact storage decodes to the reloaded image of its live owner -/
+theorem exact_row_decodes (st : St) (hex : Exact st) (hsil : st.silent = [])
+    (hrep : ∀ (i : Nat) (e : Entry), st.ents[i]? = some e → e.isTrash = false → e.Rep ∧ e.MtimeOk)
+    (k : Nat) (row : Val) (e' : Entry) (hrow : (k, row) ∈ rowsOf st.store) (hd : Entry.deserialize k row = .ok e') :
+    ∃ (i : Nat) (e : Entry), st.ents[i]? = some e ∧ e.isTrash = false ∧ e.storageId = some k ∧ e' = e.reloaded k := by
+  have hns : ∀ i, i ∉ st.silent := fun i => by rw [hsil]; simp
+  obtain ⟨i, e, hei, hk, hlive⟩ := hex.rows_have_owner k row hrow
+  obtain ⟨ht, hr⟩ := hlive (hns i)
+  obtain ⟨hR, hM⟩ := hrep i e hei ht
+  obtain ⟨row', hr', hd'⟩ := roundtrip e k hR hM
+  rw [hr] at hr'; injection hr' with hr'; subst hr'
+  rw [hd] at hd'; injection hd' with hd'
+  exact ⟨i, e, hei, ht, hk, hd'⟩
+
+/-- every live non-trash entry of an exact storage is rebuilt by the loader as its reloaded image -/
+theorem exact_entry_reloaded (st : St) (hex : Exact st) (hsil : st.silent = [])
+    (hrep : ∀ (i : Nat) (e : Entry), st.ents[i]? = some e → e.isTrash = false → e.Rep ∧ e.MtimeOk)
+    (i : Nat) (e : Entry) (hei : st.ents[i]? = some e) (ht : e.isTrash = false) :
+    ∃ (k j : Nat), e.storageId = some k ∧ (reload st.store).ents[j]? = some (e.reloaded k) := by
+  have hns : ∀ i, i ∉ st.silent := fun i => by rw [hsil]; simp
+  obtain ⟨k, row, hk, hr, hrow⟩ := hex.live_have_rows i e hei (hns i) ht
+  obtain ⟨hR, hM⟩ := hrep i e hei ht
+  obtain ⟨row', hr', hd'⟩ := roundtrip e k hR hM
+  rw [hr] at hr'; injection hr' with hr'; subst hr'
+  have hmem : e.reloaded k ∈ loadedEntries (rowsOf st.store) := (mem_loadedEntries _ _).2 ⟨k, row, hrow, hd'⟩
+  rw [← reload_ents] at hmem
+  obtain ⟨j, hj⟩ := List.getElem?_of_mem hmem
+  exact ⟨k, j, hk, hj⟩
+
+/-- **Reload, relative to the live entries**: take a live state whose storage is exact (the
+    conclusion of `commit_makes_storage_exact`, nothing silently changed) and whose live entries are
+    msgpack-representable.  Then, for every side and every string id:
     (1) what the state rebuilt from storage finds under that id is the reloaded image (`roundtrip`)
         of a live non-trash entry that carries that id, under its own storage id;
-    (2) every live non-trash entry that carries that id is found under it after the reload.
-    (Which live entry the *live* index returns for an id is C11's invariant; lookups with the key
-    None and the pending set are the excluded points witnessed below.) -/
-theorem reload_equiv_partial (st : St) (hex : Exact st) (hsil : st.silent = [])
+    (2) every live non-trash entry that carries that id is found under it after the reload. -/
+theorem reload_equiv_entries (st : St) (hex : Exact st) (hsil : st.silent = [])
     (hrep : ∀ (i : Nat) (e : Entry), st.ents[i]? = some e → e.isTrash = false → e.Rep ∧ e.MtimeOk) (sd : Sd) (s : String) :
     (∀ j, lookupOid (reload st.store) sd (.str s) = some j →
       ∃ (i : Nat) (e : Entry) (k : Nat), st.ents[i]? = some e ∧ e.isTrash = false ∧ e.storageId = some k ∧ (e.side sd).oid = .str s ∧
         (reload st.store).ents[j]? = some (e.reloaded k)) ∧
     (∀ (i : Nat) (e : Entry), st.ents[i]? = some e → e.isTrash = false → (e.side sd).oid = .str s →
       ∃ j, lookupOid (reload st.store) sd (.str s) = some j) := by
-  have hns : ∀ i, i ∉ st.silent := fun i => by rw [hsil]; simp
   constructor
   · intro j hj
     obtain ⟨e', he', ho'⟩ := reload_lookup_sound st.store sd s j hj
     have hmem : e' ∈ loadedEntries (rowsOf st.store) := by
       rw [← reload_ents]; exact List.mem_of_getElem? he'
     obtain ⟨k, row, hrow, hd⟩ := (mem_loadedEntries _ _).1 hmem
-    obtain ⟨i, e, hei, hk, _, hlive⟩ := hex.rows_have_owner k row hrow
-    obtain ⟨ht, hr⟩ := hlive (hns i)
-    obtain ⟨hR, hM⟩ := hrep i e hei ht
-    obtain ⟨row', hr', hd'⟩ := roundtrip e k hR hM
-    rw [hr] at hr'; injection hr' with hr'; subst hr'
-    rw [hd] at hd'; injection hd' with hd'; subst hd'
+    obtain ⟨i, e, hei, ht, hk, heq⟩ := exact_row_decodes st hex hsil hrep k row e' hrow hd
+    subst heq
     refine ⟨i, e, k, hei, ht, hk, ?_, he'⟩
-    have : ((e.reloaded k).side sd).oid = norm (e.side sd).oid := by cases sd <;> rfl
-    rw [this] at ho'
+    rw [reloaded_side_oid] at ho'
     exact norm_eq_str _ _ ho'
   · intro i e hei ht ho
-    obtain ⟨k, row, hk, _, hr, hrow⟩ := hex.live_have_rows i e hei (hns i) ht
-    obtain ⟨hR, hM⟩ := hrep i e hei ht
-    obtain ⟨row', hr', hd'⟩ := roundtrip e k hR hM
-    rw [hr] at hr'; injection hr' with hr'; subst hr'
-    have hmem : e.reloaded k ∈ loadedEntries (rowsOf st.store) := (mem_loadedEntries _ _).2 ⟨k, row, hrow, hd'⟩
-    rw [← reload_ents] at hmem
-    obtain ⟨i', hi'⟩ := List.getElem?_of_mem hmem
-    have ho2 : ((e.reloaded k).side sd).oid = .str s := by
-      have : ((e.reloaded k).side sd).oid = norm (e.side sd).oid := by cases sd <;> rfl
-      rw [this, ho]; rfl
+    obtain ⟨k, i', hk, hi'⟩ := exact_entry_reloaded st hex hsil hrep i e hei ht
+    have ho2 : ((e.reloaded k).side sd).oid = .str s := by rw [reloaded_side_oid, ho]; rfl
     obtain ⟨j, hj, _⟩ := reload_lookup_complete st.store sd s i' _ hi' ho2
     exact ⟨j, hj⟩
 
-/-- (3) **the loader indexes absent sides under the key None** (state.py:732-737): after a reload
-    `lookup_oid(side, None)` and `lookup_path(side, None)` return an entry, before it they do not -/
+/-- what C08 needs of the live indexes (C11's invariant, in the terms used here): the live id index
+    returns exactly the entry that carries the id, nothing under None, and the live pending set is the
+    set of entries with a change stamp on a side that has an id -/
+structure LiveIndexOK (st : St) : Prop where
+  sound : ∀ (sd : Sd) (s : String) (i : Nat), lookupOid st sd (.str s) = some i →
+    ∃ e, st.ents[i]? = some e ∧ (e.side sd).oid = .str s
+  complete : ∀ (sd : Sd) (s : String) (i : Nat) (e : Entry), st.ents[i]? = some e → (e.side sd).oid = .str s →
+    lookupOid st sd (.str s) = some i
+  none_absent : ∀ (sd : Sd), lookupOid st sd .nil = none
+  pending : ∀ i, i ∈ st.changeset ↔ ∃ e, st.ents[i]? = some e ∧ e.pendingOnLoad = true
+
+/-- **Reload equivalence.**  On exact storage, with representable entries and consistent live
+    indexes (C11): for every side and every key that is None or a string, the state rebuilt from
+    storage answers `lookup_oid` with the reloaded image of exactly the entry the live state answers
+    with (nothing if the live state has nothing), and the same rows are pending. -/
+theorem reload_equiv (st : St) (hex : Exact st) (hsil : st.silent = [])
+    (hrep : ∀ (i : Nat) (e : Entry), st.ents[i]? = some e → e.isTrash = false → e.Rep ∧ e.MtimeOk)
+    (hix : LiveIndexOK st) :
+    (∀ (sd : Sd) (key : Val), (key = .nil ∨ ∃ s, key = .str s) →
+      (lookupOid (reload st.store) sd key).bind (fun j => (reload st.store).ents[j]?) =
+      (lookupOid st sd key).bind (fun i => (st.ents[i]?).bind (fun e => e.storageId.map e.reloaded))) ∧
+    (∀ k : Nat,
+      (∃ (j : Nat) (e' : Entry), j ∈ (reload st.store).changeset ∧ (reload st.store).ents[j]? = some e' ∧ e'.storageId = some k) ↔
+      (∃ (i : Nat) (e : Entry), i ∈ st.changeset ∧ st.ents[i]? = some e ∧ e.storageId = some k)) := by
+  constructor
+  · intro sd key hkey
+    rcases hkey with hkey | ⟨s, hkey⟩
+    · subst hkey
+      rw [(reload_none_key_absent st.store sd false).1, hix.none_absent sd]; rfl
+    · subst hkey
+      obtain ⟨h1, h2⟩ := reload_equiv_entries st hex hsil hrep sd s
+      cases hl : lookupOid st sd (.str s) with
+      | none =>
+        cases hr : lookupOid (reload st.store) sd (.str s) with
+        | none => rfl
+        | some j =>
+          obtain ⟨i, e, k, hei, _, _, ho, _⟩ := h1 j hr
+          rw [hix.complete sd s i e hei ho] at hl; cases hl
+      | some i =>
+        obtain ⟨e, hei, ho⟩ := hix.sound sd s i hl
+        obtain ⟨j, hj⟩ := h2 i e hei (not_trash_of_oid e sd s ho) ho
+        obtain ⟨i', e', k, hei', _, hk, ho', hje⟩ := h1 j hj
+        have := hix.complete sd s i' e' hei' ho'
+        rw [hl] at this; injection this with this; subst this
+        rw [hei] at hei'; injection hei' with hei'; subst hei'
+        simp [hj, hje, hei, hk]
+  · intro k
+    constructor
+    · rintro ⟨j, e', hjc, hje, hk'⟩
+      obtain ⟨e'', hje', hp⟩ := (reload_pending_spec st.store j).1 hjc
+      rw [hje] at hje'; injection hje' with hje'; subst hje'
+      have hmem : e' ∈ loadedEntries (rowsOf st.store) := by
+        rw [← reload_ents]; exact List.mem_of_getElem? hje
+      obtain ⟨k0, row, hrow, hd⟩ := (mem_loadedEntries _ _).1 hmem
+      obtain ⟨i, e, hei, ht, hk, heq⟩ := exact_row_decodes st hex hsil hrep k0 row e' hrow hd
+      subst heq
+      have : k0 = k := by simpa [Entry.reloaded] using hk'
+      subst this
+      rw [reloaded_pending] at hp
+      exact ⟨i, e, (hix.pending i).2 ⟨e, hei, hp⟩, hei, hk⟩
+    · rintro ⟨i, e, hic, hei, hk⟩
+      obtain ⟨e0, hei0, hp⟩ := (hix.pending i).1 hic
+      rw [hei] at hei0; injection hei0 with hei0; subst hei0
+      have ht : e.isTrash = false := by
+        cases h : e.isTrash
+        · rfl
+        · simp [Entry.pendingOnLoad, Entry.isTrash] at hp h; simp [h.1, h.2] at hp
+      obtain ⟨k0, j, hk0, hj⟩ := exact_entry_reloaded st hex hsil hrep i e hei ht
+      rw [hk] at hk0; injection hk0 with hk0; subst hk0
+      exact ⟨j, e.reloaded k, (reload_pending_spec st.store j).2 ⟨_, hj, by rw [reloaded_pending]; exact hp⟩, hj, rfl⟩
+
+/-- the repaired findings on their exact replays (kernel-checked): after the reload nothing answers
+    to None, and a change stamp on an id-less side is not pending -/
 def noneKeyOps : List Op := [ .new .file, wOid 0 false (.str "a"), .commit ]
 
-theorem reload_indexes_absent_side_under_none :
+theorem reload_none_key_replay :
     let st := run (St.init (.sqlite [])) noneKeyOps
-    st.dirty = [] ∧ st.silent = [] ∧
-    lookupOid st true .nil = none ∧ lookupPath st true .nil true = [] ∧
-    lookupOid (reload st.store) true .nil = some 0 ∧ lookupPath (reload st.store) true .nil true = [0] ∧
-    lookupPath (reload st.store) false .nil false = [0] := by decide
+    st.dirty = [] ∧ lookupOid st true .nil = none ∧ lookupPath st true .nil true = [] ∧
+    lookupOid (reload st.store) true .nil = none ∧ lookupPath (reload st.store) true .nil true = [] ∧
+    lookupPath (reload st.store) false .nil false = [] ∧ lookupOid (reload st.store) false (.str "a") = some 0 := by decide
 
-/-- (4) **the pending set differs after a reload**: a change stamp on a side that has no id is not
-    pending on the live state (state.py:788-793, 913-916) but the loader (738-739) makes it pending -/
 def pendingOps : List Op :=
   [ .new .file, wOid 0 false (.str "a"), .write (.side 0 true (.plain .changed (.val (.int 5)))), .commit ]
 
-theorem reload_pending_set_differs :
+theorem reload_pending_replay :
     let st := run (St.init (.sqlite [])) pendingOps
-    st.dirty = [] ∧ st.silent = [] ∧ st.changeset = [] ∧ (reload st.store).changeset = [0] := by decide
+    st.dirty = [] ∧ st.silent = [] ∧ st.changeset = [] ∧ (reload st.store).changeset = [] := by decide
 
 instance : DecidableEq (Except HErr Unit) := fun a b =>
   match a, b with
@@ -568,13 +639,14 @@ def exampleOps : List Op :=
 
 def exampleFinal : Except HErr Unit × St := step (run (St.init (.sqlite [])) exampleOps) .commit
 
-/-- the hypotheses of `commit_makes_storage_exact_partial` and `reload_equiv_partial` are satisfiable by a
+/-- the hypotheses of `commit_makes_storage_exact` and `reload_equiv_entries` are satisfiable by a
     non-trivial run: two entries, a folder rename that drags a child along, an entry that becomes
-    trash and loses its row, commits in between; the final commit returns normally, no deleted row
-    was touched, nothing is silently changed, two rows are stored, and the reload finds the child -/
+    trash and loses its row, commits in between; the final commit returns normally, nothing is
+    silently changed, two rows are stored, and the reload finds the child -/
 example :
-    exampleFinal.1 = .ok () ∧ exampleFinal.2.goneTouched = false ∧ exampleFinal.2.silent = [] ∧
+    exampleFinal.1 = .ok () ∧ exampleFinal.2.silent = [] ∧
     (exampleFinal.2.ents.map fun e => e.s0.path) = [.str "/b", .str "/b/f", .nil] ∧
+    (exampleFinal.2.ents.map Entry.storageId) = [some 1, some 2, none] ∧
     (rowsOf exampleFinal.2.store).map (·.1) = [1, 2] ∧
     lookupOid (reload exampleFinal.2.store) false (.str "f") = some 1 := by decide +kernel
 
